@@ -90,6 +90,14 @@ def engines():
         "outputs": [{"name": "O", "terms": OUT_TERMS, "aggregation": "Maximum", "defuzzifier": ("Centroid", 2)}],
         "blocks": [{"conjunction": "Minimum", "disjunction": "Maximum", "implication": "Minimum",
                     "rules": ["if X is lin then O is a with 0.5", "if X is inv then O is b with 0.25", "if X is lin then O is b"]}]}
+    # input terms with an x-dependent denominator or several np.where branches evaluated on every x (a plain Python float divides
+    # by zero where an array gives inf and discards it)
+    E["rational-input-terms"] = {
+        "inputs": [{"name": "X", "terms": [("Concave", "a", 0.25, 0.5), ("Concave", "b", 0.75, 0.5)]},
+                   {"name": "Y", "terms": [("SShape", "a", 0.25, 0.75), ("ZShape", "b", 0.25, 0.75)]}],
+        "outputs": [{"name": "O", "terms": OUT_TERMS, "aggregation": "Maximum", "defuzzifier": ("Centroid", 2)}],
+        "blocks": [{"conjunction": "Minimum", "disjunction": "Maximum", "implication": "Minimum",
+                    "rules": ["if X is a and Y is a then O is a", "if X is b or Y is b then O is b"]}]}
     return E
 
 
@@ -97,6 +105,7 @@ def ob_engine(ename, spec0, N, lp, lr, sym_default, api, label):
     def run(ob):
         fl = install()
         set_mode("R")
+        S.pyfloats = True
         build = regeng.builder(fl)
         names_in = [iv["name"] for iv in spec0["inputs"]]
         names_out = [ov["name"] for ov in spec0["outputs"]]
@@ -181,7 +190,7 @@ def ob_engine(ename, spec0, N, lp, lr, sym_default, api, label):
             try:
                 for r in range(N):
                     for i, iv in enumerate(e2.input_variables):
-                        iv.value = X[r][i]
+                        iv.value = core.PyRFloat.of(X[r][i])      # "plain Python floats": float semantics until NumPy touches the value
                     e2.process()
                     per_row.append(([ov.value for ov in e2.output_variables], [[a.degree for a in ov.fuzzy.terms] for ov in e2.output_variables]))
             except core.Unsupported:
